@@ -181,6 +181,17 @@ def capture(ctx, report, folder):
                      {"pattern": u.pattern, "applied_with": u.method,
                       "obligation": "every text the pattern matches is captured up to its end (modulo trailing blanks)",
                       **({"shortest_text_cut_short": w} if w is not None else {})}, "2")
+        # second obligation, on the texts the recorded finding does NOT cover: an optional indentation
+        # prefix (starts with a line break, all white space) followed by ONE line of text
+        ws = [c for c in alpha.chars if c.isspace()]
+        line = [c for c in alpha.chars if c not in "\n\r"]
+        single = R.Lang(R.cat(R.opt(R.cat(R.plus(R.cset("\n\r")), R.star(R.cset("".join(ws))))),
+                              R.plus(R.cset("".join(line)))), alpha, "full")
+        w1 = R.difference_witness(single, total)
+        report.check(w1 is None, "R-CAPTURE-TOTAL", fn, "capture-pattern on single-line text after an indentation prefix",
+                     {"pattern": u.pattern,
+                      "obligation": "(line breaks + white space)? followed by one line of text: matched, captured to its end",
+                      **({"shortest_text_lost_or_cut": w1} if w1 is not None else {})}, "2")
         # the only skip condition is "no match"
         guard = None
         for n in walk_no_nested(fn.node):
@@ -233,6 +244,14 @@ def webvtt_tags(ctx, report, folder):
     seq = [(src(n.func.value), src(n.args[0]) if n.args else None) for n in subs[:2]]
     ok = seq == [("VOICE_SPAN_PATTERN", "'\\\\2: '"), ("OTHER_SPAN_PATTERN", "''")]
     report.check(ok, "R-ORDER", dec, "voice spans become 'Name: ' before the remaining tags are stripped", [src(n) for n in subs], "3")
+    # ... and references are decoded only AFTER the tags are gone: '&lt;i&gt;' is the text '<i>', not a tag
+    order = [("sub" if n.func.attr == "sub" else "replace") for n in walk_no_nested(dec.node)
+             if isinstance(n, ast.Call) and isinstance(n.func, ast.Attribute) and n.func.attr in ("sub", "replace")]
+    if "replace" not in order:
+        raise AnalysisError("WebVTTReader._decode: no reference replacement found")
+    ok = order.index("replace") > max(i for i, k in enumerate(order) if k == "sub")
+    report.check(ok, "R-ORDER", dec, "character references are decoded after the tags are stripped (decoded '<' is text, never markup)",
+                 {"operations_in_order": order}, "3")
 
 
 def breaks(ctx, report):
